@@ -149,6 +149,9 @@ def _diff_fields(exp, obs):
     hard, soft = [], []
     if obs.get("joinok") is False:
         hard.append("joinok (C03 join law for e-mail: get_full_text() != trimmed newline-join of the unit texts)")
+    for k in ("plainsep", "fullsep"):
+        if not all(obs.get(k, [])):
+            hard.append(f"{k} (texts of separate parts are fused: no white space between them)")
     for k in ("nunits", "utype"):
         if k in exp and exp[k] != obs.get(k):
             hard.append(f"{k} (C03 e-mail unit clause)")
@@ -429,7 +432,7 @@ def _worker_mail(job, wd):
         grp = list(range(k, min(len(cases), k + n)))
         k += n
         nb += 1
-        eol = ("asis", "lf", "crlf")[nb % 3]
+        eol = ("asis", "lf", "crlf", "lf-noblank", "crlf-noblank", "lf-nofinal", "crlf-noblank-nofinal")[nb % 7]
 
         def read(idx_list, tag):
             data = g.write_mbox(Path(wd) / f"mb-{tag}.mbox", [cases[i][2] for i in idx_list], eol, rngm)
